@@ -12,6 +12,9 @@ import traceback
 ROOT = os.path.dirname(os.path.dirname(os.path.abspath(__file__)))
 REPO = os.environ.get("VERIF_REPO", "/repo")
 FINDINGS_FILE = os.path.join(ROOT, "known_findings.json")
+# maintenance only (seeded-change campaigns against scratch worktrees): redirect evidence/replay output so that the committed
+# evidence files, which must come from runs against /repo itself, are never overwritten by such a run
+OUT = os.environ.get("VERIF_OUT") or ROOT
 
 _findings = None
 
@@ -113,19 +116,19 @@ def run_tasks(tasks, nproc=None, progress=True):
 # replay files
 
 def write_replay(prop, ob_id, payload):
-    d = os.path.join(ROOT, "replays", prop)
+    d = os.path.join(OUT, "replays", prop)
     os.makedirs(d, exist_ok=True)
     name = "".join(c if c.isalnum() or c in "._-" else "_" for c in ob_id)[:150] + ".json"
     p = os.path.join(d, name)
     with open(p, "w") as f:
         json.dump(payload, f, indent=1, default=str)
-    return os.path.relpath(p, ROOT)
+    return os.path.relpath(p, OUT)
 
 
 def write_evidence(prop, tier, level, coverage, assumptions, wall_s, violations, seed=0):
     ev = {"property_id": prop, "tier": tier, "seed": seed, "level": level, "coverage": coverage,
           "assumptions": assumptions, "wall_s": round(wall_s, 2), "violations": violations}
-    d = os.path.join(ROOT, "evidence")
+    d = os.path.join(OUT, "evidence")
     os.makedirs(d, exist_ok=True)
     with open(os.path.join(d, f"{prop}.json"), "w") as f:
         json.dump(ev, f, indent=1, default=str)
